@@ -92,9 +92,7 @@ Ltac wf_branches :=
 Lemma wf_handleRequest c now s m : wf s -> wf (fst (handleRequest c now s m)).
 Proof.
   intros H. unfold handleRequest.
-  set (req0 := match m_req m with Some r => r | None => 0 end).
-  set (sid := match m_sid m with Some r => r | None => 0 end).
-  destruct (if negb (sid =? 0) then (Selecting, req0) else _) as [oper req].
+  destruct (classify m) as [oper req].
   destruct (req =? 0); simpl; auto.
   pose proof (wf_findOrCreate c s (getcid m) (m_chaddr m) H) as H1.
   destruct (findOrCreate c s (getcid m) (m_chaddr m)) as [s1 l]. simpl in H1.
